@@ -268,7 +268,7 @@ def load_known_findings() -> tuple[dict[str, list[tuple[str, str]]], list[str]]:
 
 
 def write_replay(prop: str, payload: dict) -> Path:
-    d = VERIF / "replays"
+    d = Path(os.environ.get("PAMIQ_REPLAY_DIR", str(VERIF / "replays")))
     d.mkdir(exist_ok=True)
     blob = json.dumps(payload, sort_keys=True, default=str)
     digest = hashlib.sha1(blob.encode()).hexdigest()[:10]
@@ -475,8 +475,11 @@ def run_check(prop: str, *, lean_modules: list[str], required_theorems: list[str
           "assumptions": assumptions, "wall_s": round(_time.time() - t0, 2),
           "violations": sum(1 for k in reported if not (isinstance(k, tuple)))
           + (1 if exit_code == 1 and not unknown_violation else 0)}
-    (VERIF / "evidence").mkdir(exist_ok=True)
-    (VERIF / "evidence" / f"{prop}.json").write_text(json.dumps(ev, indent=1, default=str))
+    # development runs against scratch trees (bin/seedmatrix, bin/trycheck) divert their evidence and
+    # replays so that the committed files only ever come from runs against the real tree
+    evdir = Path(os.environ.get("PAMIQ_EVIDENCE_DIR", str(VERIF / "evidence")))
+    evdir.mkdir(parents=True, exist_ok=True)
+    (evdir / f"{prop}.json").write_text(json.dumps(ev, indent=1, default=str))
     print(f"[{prop}] tier={tier} seed={seed} theorems={n_thm} suites={suites_ok}/{n_suites} "
           f"evaluations={evaluations} nontrivial={nontrivial} exit={exit_code} "
           f"wall={_time.time()-t0:.1f}s")
